@@ -239,6 +239,12 @@ def check_multi_script(run, bps, g, cards):
                     c = SmtLibCommand(smtcmd.DECLARE_CONST, [c.args[0]])
                     run.cls("command:declare-const")
                 sc.add_command(c)
+        if g.pct(50):
+            # a definition whose formal parameters carry the (hostile) names of the formula's symbols
+            ps = sorted((s_ for s_ in fs[0].get_free_variables() if not s_.symbol_type().is_function_type()),
+                        key=lambda s_: s_.symbol_name())[:2]
+            sc.add_command(SmtLibCommand(smtcmd.DEFINE_FUN, [g.choice(["dfn", "my def", "d!f"]), ps, fs[0].get_type(), fs[0]]))
+            run.cls("command:define-fun")
         for f in fs:
             sc.add_command(SmtLibCommand(smtcmd.ASSERT, [f]))
         sc.add_command(SmtLibCommand(smtcmd.CHECK_SAT, []))
